@@ -2,13 +2,58 @@
 from .core import chain_check
 
 
+def _structural(chk):
+    """containers and constructor calls: fix and update pending on one `==` snapshot"""
+    from . import assign
+    from .. import assign_replay, pool, tlc
+    from ..checklib import MachineryError
+    sizes = assign.SIZES[chk.tier]
+    for shape in ("call", "pos", "dict", "seq"):
+        ts_mc, ts, st, keep = sizes[shape]
+        res = tlc.run_tlc("MC_Assign", "Assign_%s.cfg" % shape, workers=16, timeout=3000,
+                          extra_files={"run.cfg": assign._cfg(shape, ["C09"], {"Mode": "mc", "TStride": ts_mc * (4 if shape == "seq" else 1),
+                                                                               "Offset": chk.seed % ts_mc})})
+        chk.add_tlc(res, "mc Assign_%s (C09: fix;update = update;fix = fix,update)" % shape)
+        if not res.ok:
+            chk.spec_violation(res, "mc Assign_" + shape)
+        tlc.cleanup(res)
+        res = tlc.run_tlc("MC_Assign", "Assign_%s.cfg" % shape, workers=16, timeout=3000,
+                          extra_files={"run.cfg": assign._cfg(shape, ["Emit"], {"Mode": "emit", "TStride": 2 if shape == "call" and chk.quick else ts, "Stride": st, "Offset": chk.seed % 7})})
+        chk.add_tlc(res, "emit Assign_%s" % shape)
+        try:
+            cases = [c for c in assign_replay.load_cases(res.out_dir, seed=chk.seed, keep_every=1)
+                     if c["A"] == ["fix", "update"] and {"fix", "update"} <= set(c["exp_cats"]) and c.get("eqnew")]
+        finally:
+            tlc.cleanup(res)
+        cases = cases[: 4000 if chk.quick else 40000]
+        by_id = {c["id"]: c for c in cases}
+        errors = 0
+        for out in pool.parallel_map(assign_replay._worker_orders, [(c, chk.seed) for c in pool.chunks(cases, 20)]):
+            for r in out:
+                if "error" in r:
+                    errors += 1
+                    print("driver error:", r["error"])
+                    continue
+                chk.count(1, "orders|" + shape + r["id"])
+                chk.validated(1)
+                for m in r["mism"]:
+                    chk.mismatch(m["clause"], {"clause": m["clause"], "shape": shape, "asserts": False, "spec_confluent": True, "ops": [shape]},
+                                 {"kind": "assign-orders", "case": by_id[r["id"]], "seed": chk.seed, "mismatch": m,
+                                  "module": r["text"]}, props=m["props"])
+        if errors:
+            raise MachineryError("%d replay jobs crashed" % errors)
+
+
 def run():
     chk = chain_check("C09", "chain9")
     if isinstance(chk, int):
         return chk
+    _structural(chk)
     chk.assumptions += ["programs with at least two pending categories; one pending category is approved per session "
                         "until nothing is pending (fuel 6)"]
     return chk.finish(
         rule="TLC enumerates, for every program with >=2 pending categories, every order of approving one pending "
              "category per session plus the all-at-once history; all are replayed as chained real runs and the final "
-             "files compared as syntax trees; each program counts once")
+             "files compared as syntax trees; each program counts once; at the structural level (lists, dicts, "
+             "constructor calls) TLC checks fix;update = update;fix = fix,update for every (term, value) and the three "
+             "histories are replayed for the cases where both are pending")
